@@ -180,6 +180,9 @@ func c05Check(c C05Case, cx *h.Ctx) *h.Failure {
 			_ = other.AsText()
 			other.AppendWKT(nil)
 		}
+		if msg := scribbleStable("AppendWKT(nil)", func() []byte { return g.AppendWKT(nil) }); msg != "" {
+			return h.Failf("wkt/result-shared", "%s (%s)", msg, model)
+		}
 		if text != held || string(app0) != held {
 			return h.Failf("wkt/result-overwritten", "the text returned by AsText()/AppendWKT(nil) changed after later calls:\nwas %q\nnow %q / %q", held, text, app0)
 		}
